@@ -37,6 +37,33 @@ pub enum RcOp
     /// move the clone into a component of entity `.1`: it is dropped when that entity is despawned (by hand, as a
     /// descendant, or by a collection - in which case the drop happens in the middle of a collection pass)
     StoreOn(u8, u8),
+    /// give the entity a component whose `on_remove` hook panics while the harness has armed it
+    PlantFuse(u8),
+    /// fault injection: a collection pass with the fuses armed; the first fused entity it despawns makes the pass
+    /// unwind (caught by the harness). Whatever was waiting behind it must be taken by the next complete pass
+    GcFault,
+    /// like `GcFault`, but first plants the fuse on one of the entities that are waiting for collection (`.0` picks it)
+    GcFaultOn(u8),
+    /// spawn `.0` fresh entities, prepare each and drop the signal at once: several entities wait for one pass
+    Burst(u8),
+}
+
+thread_local!
+{
+    static ARMED: std::cell::Cell<bool> = std::cell::Cell::new(false);
+}
+
+/// Component whose `on_remove` hook panics once while armed.
+struct Fuse;
+impl Component for Fuse
+{
+    const STORAGE_TYPE: bevy::ecs::component::StorageType = bevy::ecs::component::StorageType::Table;
+    fn register_component_hooks(hooks: &mut bevy::ecs::component::ComponentHooks)
+    {
+        hooks.on_remove(|_world, _entity, _id| {
+            if ARMED.with(|a| a.replace(false)) { panic!("injected fault: a component hook panics during a collection pass"); }
+        });
+    }
 }
 
 /// Component holding signal clones (what `EntityReactors` does with reactor handles).
@@ -66,6 +93,10 @@ struct Model
     /// lost its last clone in the middle of a collection pass (a holder was collected): that pass or the next one may
     /// collect it - both are "the first collection after"; must be gone after the next pass
     either: Vec<bool>,
+    fused: Vec<bool>,
+    /// state not predictable any more (the unwinding pass stopped somewhere inside this entity's despawn, or a clone
+    /// of its signal is held by such an entity): never checked again, never used again
+    unknown: Vec<bool>,
 }
 
 impl Model
@@ -146,6 +177,18 @@ impl Model
         for e in 0..self.alive.len() { self.either[e] = false; }
     }
 
+    /// Marks `e`, its live descendants and every entity a clone of whose signal they hold as unpredictable.
+    fn taint(&mut self, e: usize)
+    {
+        if self.unknown[e] { return; }
+        self.unknown[e] = true;
+        self.doomed[e] = false;
+        self.either[e] = false;
+        let held: Vec<usize> = self.held[e].clone();
+        for slot in held { if let Some(x) = self.sigs[slot] { self.taint(x); } }
+        for c in 0..self.alive.len() { if self.parent[c] == Some(e) { self.taint(c); } }
+    }
+
     /// Collection passes until nothing is left to collect (what must be gone at the latest).
     fn gc_full(&mut self)
     {
@@ -174,7 +217,7 @@ fn run_inner(case: &RcCase, out: &mut RcOutcome)
     app.setup_auto_despawn();
     let n = case.n_entities.max(1) as usize;
     let mut ents: Vec<Entity> = (0..n).map(|_| app.world_mut().spawn_empty().id()).collect();
-    let mut m = Model{ alive: vec![true; n], parent: vec![None; n], prepared: vec![false; n], count: vec![0; n], doomed: vec![false; n], sigs: Vec::new(), held: vec![Vec::new(); n], either: vec![false; n] };
+    let mut m = Model{ alive: vec![true; n], parent: vec![None; n], prepared: vec![false; n], count: vec![0; n], doomed: vec![false; n], sigs: Vec::new(), held: vec![Vec::new(); n], either: vec![false; n], fused: vec![false; n], unknown: vec![false; n] };
     let mut sigs: Vec<Option<AutoDespawnSignal>> = Vec::new();
     let mut drops_out_of_order = 0u32;
     let mut gcs = 0u32;
@@ -188,7 +231,7 @@ fn run_inner(case: &RcCase, out: &mut RcOutcome)
             {
                 let e = *e as usize % ents.len();
                 // one signal family per entity (two independent `prepare`s are two independent counts)
-                if m.prepared[e] || !m.alive[e] { continue; }
+                if m.prepared[e] || !m.alive[e] || m.unknown[e] { continue; }
                 let sig = app.world().resource::<AutoDespawner>().prepare(ents[e]);
                 if sig.entity() != ents[e] { out.violations.push(format!("op {i}: signal names {:?}, prepared {:?}", sig.entity(), ents[e])); }
                 sigs.push(Some(sig));
@@ -249,9 +292,9 @@ fn run_inner(case: &RcCase, out: &mut RcOutcome)
             }
             RcOp::SpawnChild(p) =>
             {
-                if ents.len() >= 12 { continue; }
+                if ents.len() >= 16 { continue; }
                 let p = *p as usize % ents.len();
-                if !m.alive[p] { continue; }
+                if !m.alive[p] || m.unknown[p] { continue; }
                 let c = app.world_mut().spawn_empty().set_parent(ents[p]).id();
                 ents.push(c);
                 m.alive.push(true);
@@ -261,12 +304,14 @@ fn run_inner(case: &RcCase, out: &mut RcOutcome)
                 m.doomed.push(false);
                 m.held.push(Vec::new());
                 m.either.push(false);
+                m.fused.push(false);
+                m.unknown.push(false);
                 hit(out, "C10:child");
             }
             RcOp::Reparent(c, p) =>
             {
                 let (c, p) = (*c as usize % ents.len(), *p as usize % ents.len());
-                if c == p || !m.alive[c] || !m.alive[p] || m.descendants(c).contains(&p) { continue; }
+                if c == p || !m.alive[c] || !m.alive[p] || m.unknown[c] || m.unknown[p] || m.descendants(c).contains(&p) { continue; }
                 app.world_mut().entity_mut(ents[c]).set_parent(ents[p]);
                 m.parent[c] = Some(p);
                 hit(out, "C10:reparent");
@@ -274,7 +319,7 @@ fn run_inner(case: &RcCase, out: &mut RcOutcome)
             RcOp::Unparent(c) =>
             {
                 let c = *c as usize % ents.len();
-                if !m.alive[c] || m.parent[c].is_none() { continue; }
+                if !m.alive[c] || m.unknown[c] || m.parent[c].is_none() { continue; }
                 app.world_mut().entity_mut(ents[c]).remove_parent();
                 m.parent[c] = None;
             }
@@ -292,11 +337,84 @@ fn run_inner(case: &RcCase, out: &mut RcOutcome)
                 m.drop_sig(s);
                 hit(out, "C10:dropped_by_unwinding");
             }
+            RcOp::PlantFuse(e) =>
+            {
+                let e = *e as usize % ents.len();
+                if !m.alive[e] || m.unknown[e] || m.fused[e] { continue; }
+                app.world_mut().entity_mut(ents[e]).insert(Fuse);
+                m.fused[e] = true;
+            }
+            RcOp::Burst(k) =>
+            {
+                for _ in 0..(*k).clamp(2, 4)
+                {
+                    if ents.len() >= 16 { break; }
+                    let e = app.world_mut().spawn_empty().id();
+                    ents.push(e);
+                    m.alive.push(true); m.parent.push(None); m.prepared.push(true); m.count.push(1); m.doomed.push(false);
+                    m.held.push(Vec::new()); m.either.push(false); m.fused.push(false); m.unknown.push(false);
+                    let sig = app.world().resource::<AutoDespawner>().prepare(e);
+                    sigs.push(Some(sig));
+                    m.sigs.push(Some(ents.len() - 1));
+                    let slot = sigs.len() - 1;
+                    sigs[slot] = None;
+                    m.drop_sig(slot);
+                }
+                hit(out, "C10:burst");
+            }
+            RcOp::GcFault | RcOp::GcFaultOn(_) =>
+            {
+                if let RcOp::GcFaultOn(pick) = op
+                {
+                    let waiting: Vec<usize> = (0..ents.len()).filter(|e| m.alive[*e] && m.doomed[*e] && !m.unknown[*e] && !m.fused[*e]).collect();
+                    if !waiting.is_empty()
+                    {
+                        let e = waiting[*pick as usize % waiting.len()];
+                        app.world_mut().entity_mut(ents[e]).insert(Fuse);
+                        m.fused[e] = true;
+                    }
+                }
+                // what this pass could despawn (cascades included)
+                let could_die: Vec<usize> = {
+                    let mut fin = m.clone();
+                    fin.gc_full();
+                    (0..ents.len()).filter(|e| m.alive[*e] && !fin.alive[*e]).collect()
+                };
+                ARMED.with(|a| a.set(true));
+                let r = std::panic::catch_unwind(std::panic::AssertUnwindSafe(|| garbage_collect_entities(app.world_mut())));
+                ARMED.with(|a| a.set(false));
+                gcs += 1;
+                if r.is_ok()
+                {
+                    // no fused entity was reached: an ordinary pass
+                    m.gc();
+                    m.settle_either(&|e| app.world().get_entity(ents[e]).is_ok());
+                }
+                else
+                {
+                    hit(out, "C10:collection_pass_interrupted_by_panic");
+                    // the pass unwound somewhere inside the despawn of a fused entity or of an ancestor of it that was
+                    // being collected: those (and what they hold) are unpredictable from now on
+                    let fused: Vec<usize> = could_die.iter().copied().filter(|e| m.fused[*e]).collect();
+                    for f in fused
+                    {
+                        let mut chain = vec![f];
+                        let mut x = f;
+                        while let Some(p) = m.parent[x] { if could_die.contains(&p) { chain.push(p); x = p; } else { break; } }
+                        for c in chain { m.taint(c); }
+                    }
+                    // everything else that was waiting was either collected before the fault or is still waiting; the
+                    // next complete pass must take what is left
+                    for e in 0..ents.len() { if m.doomed[e] && !m.unknown[e] { m.either[e] = true; } }
+                    m.settle_either(&|e| app.world().get_entity(ents[e]).is_ok());
+                    if (0..ents.len()).any(|e| m.doomed[e] && !m.unknown[e]) { hit(out, "C10:entities_left_waiting_behind_the_fault"); }
+                }
+            }
             RcOp::StoreOn(s, e) =>
             {
                 if sigs.is_empty() { continue; }
                 let (s, e) = (*s as usize % sigs.len(), *e as usize % ents.len());
-                if !m.alive[e] || sigs[s].is_none() { continue; }
+                if !m.alive[e] || m.unknown[e] || sigs[s].is_none() { continue; }
                 let sig = sigs[s].take().unwrap();
                 let mut em = app.world_mut().entity_mut(ents[e]);
                 if !em.contains::<Holder>() { em.insert(Holder::default()); }
@@ -350,7 +468,7 @@ fn run_inner(case: &RcCase, out: &mut RcOutcome)
                     let mut fin = m.clone();
                     for s in moved_slots.iter() { fin.drop_sig(*s); }
                     fin.gc_full();
-                    (0..ents.len()).filter(|e| fin.alive[*e]).collect()
+                    (0..ents.len()).filter(|e| fin.alive[*e] && !m.unknown[*e]).collect()
                 };
                 let mut rounds = 0;
                 loop
@@ -381,6 +499,7 @@ fn run_inner(case: &RcCase, out: &mut RcOutcome)
         for e in 0..ents.len()
         {
             let alive = app.world().get_entity(ents[e]).is_ok();
+            if m.unknown[e] { continue; }
             if alive != m.alive[e]
             {
                 let why = if alive { "still exists although every clone of its signal was dropped before the last collection (or an ancestor was collected)" }
@@ -416,7 +535,7 @@ pub fn decode(bytes: &[u8], max_ops: usize, threads: bool) -> RcCase
     let n_ops = below(byte(&mut u), max_ops + 1);
     for _ in 0..n_ops
     {
-        let k = below(byte(&mut u), 27);
+        let k = below(byte(&mut u), 34);
         let a = byte(&mut u) % 12;
         let b = byte(&mut u) % 12;
         let op = match k
@@ -431,6 +550,10 @@ pub fn decode(bytes: &[u8], max_ops: usize, threads: bool) -> RcCase
             17 => RcOp::Reparent(a, b),
             18 => RcOp::Unparent(a),
             20 => RcOp::PanicDrop(a),
+            27 | 28 => RcOp::PlantFuse(a),
+            29 => RcOp::GcFault,
+            30 | 31 => RcOp::GcFaultOn(a),
+            32 | 33 => RcOp::Burst(b),
             21 | 22 | 23 => RcOp::StoreOn(a, b),
             _ =>
             {
